@@ -313,6 +313,25 @@ def g_xlog(rec):
     return "[" + "; ".join(out) + "]"
 
 
+def g_flavour(cfg):
+    sk = cfg["subject"]
+    if sk[0] == "subject":
+        return "FSync KSubject 0"
+    if sk[0] == "behavior":
+        return f"FSync KBehavior {gz(sk[1])}"
+    if sk[0] == "async":
+        return "FSync KAsync 0"
+    return f"FReplay {gopt(sk[1])} {gopt(sk[2])}"
+
+
+def g_mapper_case(cfg, hist):
+    cold = "[" + "; ".join(g_note(n) for n in cfg.get("cold", [])) + "]"
+    return f"(({g_flavour(cfg)}), {cold}, {g_cops(hist[0])})"
+
+
+MAPPER_CASE_TY = "(flavour Z * list (ev Z) * list (@cop Z)) * (list (xevent Z) * bool)"
+
+
 IMPORTS = ("Base.Prelude Ops.Machine Subjects.Subject Subjects.Behavior Subjects.Async Subjects.Family "
            "Subjects.Replay Subjects.Connectable")
 FUEL = 20000
@@ -320,6 +339,10 @@ PRELUDE = (f"Definition model (c : config Z * history Z) := run_config 0 (fst c)
            "Definition out_eqb (a b : list (xevent Z) * bool) := "
            "list_eqb xevent_eqb (fst a) (fst b) && Bool.eqb (snd a) (snd b).\n")
 CASE_TY = "(config Z * history Z) * (list (xevent Z) * bool)"
+MAPPER_PRELUDE = (f"Definition model (c : flavour Z * list (ev Z) * list (@cop Z)) := "
+                  f"run_mapper 0 (fst (fst c)) (snd (fst c)) {FUEL} (snd c).\n"
+                  "Definition out_eqb (a b : list (xevent Z) * bool) := "
+                  "list_eqb xevent_eqb (fst a) (fst b) && Bool.eqb (snd a) (snd b).\n")
 
 
 # --------------------------------------------------------------------------
@@ -790,7 +813,7 @@ def gen_cases(tier, rng):
             alpha = [("sub", 0), ("sub", 1), ("sub", 2), ("unsub", 0), ("unsub", 1), ("next", a), ("done",)]
         else:
             alpha = [("sub", 0), ("sub", 1), ("unsub", 0), ("unsub", 1), ("next", a), ("next", b), ("done",), ("err", 11)]
-        ll = L + 1 if m == "auto" else L
+        ll = L + 1 if (m == "auto" and cfg["mode"][1] in (2, 3) and cfg["via"] == "publish") else L
         for h in subj.enum_flat(alpha, ll):
             cases.append((cfg, h))
     scope["exhaustive_flat"] = len(cases)
@@ -828,6 +851,7 @@ def run_check(chk):
     if tier != chk.tier:
         chk.cov["search"] = "theorem file or build broke: case set enlarged to the thorough scope"
     cases, scope = gen_cases(tier, chk.rng)
+    mgal, midx = [], []
     gal, idx, H, nt = [], [], {"mode": {}, "subject": {}, "reentrant": 0, "cold": 0, "falsy_values": 0,
                                "reconnect": 0, "late_subscriber_after_end": 0}, set()
     for ci, (cfg, h) in enumerate(cases):
@@ -839,6 +863,10 @@ def run_check(chk):
         H["cold"] += 1 if cfg.get("cold") else 0
         H["falsy_values"] += 1 if any(r["t"] == "got" and r["n"][0] == "N" and r["n"][1] < 6 for r in rec) else 0
         H["reconnect"] += 1 if sum(1 for r in rec if r["t"] == "ssub") >= 2 else 0
+        ops_by_id = {r["id"]: r["op"] for r in rec if r["t"] == "call"}
+        H["late_subscriber_after_end"] += 1 if any(
+            r["t"] == "got" and r["n"][0] != "N" and r["call"] is not None and ops_by_id[r["call"]][0] == "sub"
+            for r in rec) else 0
         if nontrivial(rec):
             nt.add(repr((cfg_json(cfg), subj.hist_key(h))))
         for sig, detail in oracle(cfg, h, rec):
@@ -854,9 +882,28 @@ def run_check(chk):
         if cfg["mode"][0] != "mapper":
             gal.append((f"({g_config(cfg)}, {g_hist(h)})", f"({g_xlog(rec)}, true)"))
             idx.append(ci)
+        elif cfg["mode"][1] == "id" and not h[1] and cfg["subject"][0] != "replay":
+            # (ReplaySubject instances share ONE scheduler, drained once per operation, which the
+            #  per-instance model does not reproduce; besides,
+            #  replay(mapper=..) hands the SUBSCRIBE-time scheduler to its ReplaySubject -- the factory's
+            #  parameter shadows the operator's `scheduler` -- so deliveries go through the default
+            #  CurrentThreadScheduler, which the replay engine does not model: oracle only)
+            mgal.append((g_mapper_case(cfg, h), f"({g_xlog(rec)}, true)"))
+            midx.append(ci)
     bad, logs = subj.correspond(pid, "k1", IMPORTS, CASE_TY, gal, PRELUDE)
-    chk.cov["traces_validated_against_impl"] = len(gal)
-    chk.cov["disagreements_checked"] = len(gal)
+    mbad, mlogs = subj.correspond(pid, "k1m", IMPORTS, MAPPER_CASE_TY, mgal, MAPPER_PRELUDE)
+    if mbad:
+        firsts = [i for i in mbad if i >= 0][:3]
+        detail = {"n_disagreements": len(mbad), "logs": mlogs[:1],
+                  "first (flavour, cold prefix, history) / implementation log": [mgal[i] for i in firsts]}
+        if firsts:
+            detail["model_says"] = lib.coq_show(pid, IMPORTS, f"model {mgal[firsts[0]][0]}", MAPPER_PRELUDE)
+            detail["config"] = cfg_json(cases[midx[firsts[0]]][0])
+            detail["history"] = subj.hist_json(cases[midx[firsts[0]]][1])
+        chk.tie_broken("correspondence K1/K2: Subjects/Connectable.v run_mapper vs multicast(subject_factory, mapper) "
+                       "/ publish(mapper) / publish_value(v, mapper) / replay(mapper=...)", detail)
+    chk.cov["traces_validated_against_impl"] = len(gal) + len(mgal)
+    chk.cov["disagreements_checked"] = len(gal) + len(mgal)
     if bad:
         firsts = [i for i in bad if i >= 0][:3]
         detail = {"n_disagreements": len(bad), "logs": logs[:1],
@@ -870,14 +917,14 @@ def run_check(chk):
     chk.cov["distinct_nontrivial"] = len(nt)
     chk.cov["exhaustive"] = True
     chk.cov["rule"] = (f"exhaustive: all histories of top-level calls of length <= {scope['flat_len']} "
-                       "(auto_connect: +1) over 7-8 operations (2-3 subscribers, connect, dispose of the 1st/2nd "
+                       "(auto_connect(2)/(3) on publish: +1) over 7-8 operations (2-3 subscribers, connect, dispose of the 1st/2nd "
                        "connection handle, values None/False, completion, error) for 16 configurations (publish x "
                        "plain/ref_count/share/auto_connect(0..3); publish_value and replay(1) x plain/ref_count/"
                        "auto_connect; AsyncSubject; cold prefixes); exhaustive one-reaction re-entrant trees "
                        "(sub0 sub1 ++ tails, subscriber 0/1 reacting in its first callback); seeded random trees "
                        "over random configurations (all subject kinds, replay buffer 0-3 / window 0-5 ticks with "
                        "clock advances, cold prefixes with/without terminal, manual connect next to ref_count); "
-                       "random histories for the subject_factory + mapper form (oracle only).  non-trivial = "
+                       "random histories for the subject_factory + mapper form (identity mapper on synchronous subjects: model tie; otherwise oracle only).  non-trivial = "
                        "distinct (configuration, history) with at least one source subscription and two deliveries")
     chk.cov["input_distribution"] = dict(H, **{k: v for k, v in scope.items() if isinstance(v, int)})
     step = max(1, len(cases) // 5)
@@ -896,8 +943,10 @@ def run_check(chk):
                      "top-level calls (no call-backs into the operators from inside a notification) without manual "
                      "connect() next to ref_count / auto_connect; the connection theorems (one source subscription at "
                      "a time, none while disconnected) hold for arbitrary call trees",
-                     "subject_factory + mapper form: checked by the oracle on the implementation (identity mapper and "
-                     "a mapper using the connectable twice), not modelled in Coq",
+                     "subject_factory + mapper form: modelled (Subjects/Connectable.v run_mapper: one plain connectable per "
+                     "subscriber) and tied for the identity mapper with Subject / BehaviorSubject / AsyncSubject factories on "
+                     "histories of top-level calls; ReplaySubject factories and a mapper using the connectable twice are "
+                     "checked by the oracle on the implementation only",
                      "fewer than 100 scheduler actions per drain (replay flavours)"])
 
 
